@@ -43,6 +43,13 @@ def compile_case(pt, model, recipe, version, app, ss=None, fp=None, prepare=None
         return c
     c.expr = r[1]
     c.builder = b
+    if b.subs:
+        use_fp = fp if fp is not None else version >= 8
+        if not (use_fp and version < 8):
+            r2 = call_real(b.evaluate_subs, use_fp)
+            if r2[0] != "ok":
+                c.real, c.model = ("build-exc", r2[1], r2[2]), None
+                return c
     c.real = call_real(lambda: pt.compileTeal(c.expr, mode_of(pt, app), version=version, optimize=optimize_of(pt, ss, fp)))
     c.wire_prog = b.wire_prog(recipe)
     c.wire_opts = wire_opts(version, app, ss, fp)
@@ -57,7 +64,7 @@ def same_outcome(c):
     if c.model[0] == S("err") and isinstance(c.model[1], list) and c.model[1] and c.model[1][0] == S("unsupported"):
         return None
     if c.real[0] == "ok":
-        return c.model[0] == S("ok") and list(c.model[1:]) == c.real[1].split("\n")
+        return c.model[0] == S("ok") and "\n".join(c.model[1:]) == c.real[1]
     if c.real[0] == "exc":
         return c.model[0] == S("err") and repr(c.model[1]) == c.real[1]
     return None
@@ -69,6 +76,10 @@ def run_teal(model, ctx, teal):
 
 def run_denote(model, ctx, c):
     return model.ask("(denote %s %s %s)" % (sx(ctx), c.wire_opts, c.wire_prog))
+
+
+def run_denote_c(model, ctx, c):
+    return model.ask("(denote-c %s %s %s)" % (sx(ctx), c.wire_opts, c.wire_prog))
 
 
 def observable(res):
